@@ -328,7 +328,7 @@ func c03Codec(c *vf.Ctx) {
 	if !c.Active(sub) {
 		return
 	}
-	n := c.N(3000, 20000)
+	n := c.N(3000, 80000)
 	for i := 0; i < n; i++ {
 		if !c.Mine(sub, i) {
 			continue
@@ -409,7 +409,7 @@ func c03Bytes(c *vf.Ctx) {
 	if !c.Active(sub) {
 		return
 	}
-	n := c.N(300, 3000)
+	n := c.N(300, 12000)
 	for i := 0; i < n; i++ {
 		if !c.Mine(sub, i) {
 			continue
@@ -469,7 +469,7 @@ func c03EndToEnd(c *vf.Ctx) {
 	if !c.Active(sub) {
 		return
 	}
-	n := c.N(1000, 4000)
+	n := c.N(1000, 16000)
 	for i := 0; i < n; i++ {
 		if !c.Mine(sub, i) {
 			continue
